@@ -79,6 +79,7 @@ c_Empty == {}
 LawsOK == /\\ TableLaws(EdDSATable) /\\ TableLaws(ECDSATable)
           /\\ DigestLaws({0, 1, 255}, 3, 2, <<255, 1>>)
           /\\ DigestLaws({0, 7}, 4, 3, <<7, 0, 7>>)
+          /\\ StrippedVariantFails({0, 1, 255}, 3, 2, <<255, 1>>)   \\* the digest clause can fail (behaviour before the repair)
 LNext == /\\ Assert(LawsOK, "table / digest laws of spec/Adapters.tla violated")
          /\\ PrintT(<<"TAB", ToJson([eddsa |-> EdDSATable, ecdsa |-> ECDSATable])>>)
          /\\ UNCHANGED vars
@@ -192,8 +193,9 @@ def other_digests(rng, dhex):
     return res
 
 
-def probe_cases(urls, ids, rng, share):
-    """every (claimed/captured a, transport b) pair at every receiver for every type of the phase; `share` = fraction kept"""
+def probe_cases(urls, ids, rng, share, cap=0):
+    """every (claimed/captured a, transport b) pair at every receiver for every type of the phase; `share` = fraction kept;
+    cap > 0: at most that many cases, spread evenly over the probe kinds"""
     res = []
     n = len(ids)
     outsiders = [x for x in (99, 65535, 40000) if x not in ids]
@@ -230,6 +232,17 @@ def probe_cases(urls, ids, rng, share):
             rng.shuffle(lst)
             keep += lst[:max(1, int(round(len(lst) * share)))]
         res = keep
+    if cap and len(res) > cap:
+        kinds = {}
+        for c in res:
+            kinds.setdefault(c["kind"], []).append(c)
+        for k in kinds:
+            rng.shuffle(kinds[k])
+        res = []
+        while len(res) < cap and any(kinds.values()):
+            for k in sorted(kinds):
+                if kinds[k] and len(res) < cap:
+                    res.append(kinds[k].pop())
     return res
 
 
@@ -273,21 +286,26 @@ def plan_for(tr, rng, tabs, wd):
     urls = {ad: {ph: sorted(e["url"] for e in tabs[ad] if e["phase"] == ph) for ph in ("keygen", "sign")} for ad in tabs}
     big = tr == "thorough"
     # ---- EdDSA: complete key generations + signings -------------------------------------------------------------
-    configs = [([1, 2], 1), ([1, 2, 3], 1), ([1, 2, 3], 2), (sorted(rng.sample(range(1, 65535), 3)), 1)]
+    # party identifiers: 1..n, the byte-boundary identifiers incl. 65535 (must complete like small-id sessions), seeded ones
+    configs = [([1, 2], 1), ([1, 2, 3], 1), ([1, 2, 3], 2), ([1, 256, 65535], 1), ([255, 65280, 65534], 2),
+               (sorted(rng.sample(range(1, 65536), 3)), 1)]
     if big:
-        configs += [([1, 2, 3, 4], 3), ([1, 2, 3, 4], 2), (sorted(rng.sample(range(1, 65535), 4)), 2)]
+        configs += [([1, 2, 3, 4], 3), ([1, 2, 3, 4], 2), ([1, 256, 65280, 65535], 2), ([65535, 127], 1), ([128, 257, 32768], 1),
+                    ([511, 512, 32767, 65279], 3), (sorted(rng.sample(range(1, 65536), 4)), 2)]
     for ids, thr in configs:
         dcs = digest_cases(rng, "eddsa", tr)
         if ids != [1, 2, 3] and not big:
-            dcs = dcs[:5]
+            dcs = dcs[:3]
         signs = [dict(digest=d, others=other_digests(rng, d), label=lab, timeout_ms=ms) for lab, d, ms in dcs]
         plan.session("eddsa", ids, thr, signs=signs, tag="baseline")
+        small = ids == list(range(1, len(ids) + 1))
         if big:
-            share = 1.0 if ids in ([1, 2], [1, 2, 3]) or (ids, thr) == ([1, 2, 3, 4], 3) else (0.5 if ids == [1, 2, 3, 4] else 0.2)
+            share = 1.0 if len(ids) <= 3 and small or (ids, thr) == ([1, 2, 3, 4], 3) else (0.6 if ids == [1, 2, 3, 4] else (0.5 if len(ids) <= 3 else 0.25))
         else:
-            share = 1.0 if ids == [1, 2] else (0.5 if (ids, thr) == ([1, 2, 3], 1) else 0.25)
-        kp = probe_cases(urls["eddsa"]["keygen"], ids, rng, share)
-        sp = probe_cases(urls["eddsa"]["sign"], ids, rng, share)
+            share = 1.0 if ids == [1, 2] else (0.5 if (ids, thr) == ([1, 2, 3], 1) else (0.25 if small else 0.12))
+        cap = 0 if (big or small) else 9
+        kp = probe_cases(urls["eddsa"]["keygen"], ids, rng, share, cap)
+        sp = probe_cases(urls["eddsa"]["sign"], ids, rng, share, cap)
         d0 = digest_cases(rng, "eddsa", "quick")[0][1]
         per = max(1, (len(sp) + max(1, len(kp)) - 1) // max(1, len(kp)))
         spc = chunks(sp, per)
@@ -607,7 +625,30 @@ def execute(pid, plan, wd, verdict, tr):
             stats["observed"].setdefault(o["url"], set()).add(src)
     recovered = [t for t in _retried if ends.get(t, {}).get("completed")]
     if recovered:
-        stats["drift"]["a run did not finish at its first attempt and completed when the driver repeated it (end-of-run message loss in the adapter under load)"] = len(recovered)
+        stats["drift"]["a run did not finish at its first attempt and completed when the driver repeated it"] = len(recovered)
+    by_n, retried_by_n = {}, {}
+    for t in all_traces:
+        m = plan.meta[t]
+        if m["phase"] in ("keygen", "sign") and not m.get("timeout_ms"):
+            k = "%s n=%d" % (m["ad"], len(m["ids"]))
+            by_n[k] = by_n.get(k, 0) + 1
+    for t in _retried:
+        m = plan.meta.get(t)
+        if m:
+            k = "%s n=%d" % (m["ad"], len(m["ids"]))
+            retried_by_n[k] = retried_by_n.get(k, 0) + 1
+    idsets = {}
+    for t in all_traces:
+        m = plan.meta[t]
+        if m["phase"] in ("keygen", "sign"):
+            k = "%s %s t=%d" % (m["ad"], m["ids"], m["thr"])
+            e = idsets.setdefault(k, dict(runs=0, completed=0))
+            e["runs"] += 1
+            e["completed"] += 1 if ends.get(t, {}).get("completed") else 0
+    stats["id_sets"] = idsets
+    stats["retry_statistics"] = dict(runs=by_n, first_attempt_unfinished=retried_by_n,
+                                     of_which_completed_when_repeated=len(recovered))
+    log("adapters: runs by adapter/size %s; first attempt unfinished %s" % (by_n, retried_by_n or "never"))
     stats["traces"] = len(all_traces)
     stats["events"] = sum(len(v) for v in all_traces.values())
     stats["selftest"], st3, trn3 = selftest(all_traces, plan, wd)
@@ -736,7 +777,8 @@ def finish(pid, tr, verdict, st, trn, configs, tabs, plan, stats):
         sessions=len(plan.sessions), handbuilt_classifications=len(plan.classify), table_coverage=cov,
         every_table_entry_observed_in_real_runs=not cov["only_handbuilt"] and not cov["never_observed"],
         ecdsa_stored_key_used=bool(plan.have_fixture) and tr == "quick",
-        selftest_corrupted_traces_rejected=stats["selftest"],
+        selftest_corrupted_traces_rejected=stats["selftest"], retry_statistics=stats["retry_statistics"],
+        party_id_sets=stats["id_sets"],
         drift=stats["drift"], retries=stats["retries"], crashed_cases=stats["crashed_cases"], cases_skipped_after_failed_keygen=stats["skipped"],
         monitors=MONITORS, known_findings_seen=sorted(verdict.known_seen),
         rule="real adapter objects driven through NewParty/Init/OnMsg/KeyGen/Sign/SetShareData/ThresholdPK/ClassifyMsg with an in-process "
@@ -750,7 +792,8 @@ def finish(pid, tr, verdict, st, trn, configs, tabs, plan, stats):
         "attribution monitors to drift, the outcome monitors remain)",
         "EdDSA signatures are verified with crypto/ed25519, ECDSA signatures with crypto/ecdsa.VerifyASN1 (standard verifiers)",
         "quick tier: ECDSA key generation is not run (safe primes); signing uses a stored P-256 key generated by this adapter",
-        "outcome monitors use deadlines >= 100x the typical duration and are confirmed by one re-run alone",
+        "outcome monitors use deadlines >= 40x the typical duration; an unfinished run is repeated once by the driver and confirmed by a re-run alone",
+        "party identifier 0 is not exercised (tss-lib uses the identifier as the Shamir evaluation point)",
     ], violations=len(verdict.violations))
     return rc
 
